@@ -339,6 +339,34 @@ Fixpoint exec (c : cfg) (choices : list nat) (s : state) : option state :=
                  end
   end.
 
+(* ---------------------------------------------------------------- the queue Start() builds (initTaskChan) *)
+
+(* `h.taskChan = NewWalletTaskChan(len(wss))`: capacity max (MaxWaitingTaskNum+1) (number of wallet status rows) *)
+Definition start_cap (nw : nat) : nat := Nat.max (busy_threshold + 1) nw.
+
+(* ... then one NON-BLOCKING push (PushRemove / PushImport) per status row that is removed / not ready,
+   in the order of the rows: [q] the queue so far, [d] the pushes dropped because it was full *)
+Fixpoint start_pushes (cp : nat) (q : list task) (d : nat) (rst : list task) : list task * nat :=
+  match rst with
+  | [] => (q, d)
+  | t :: r => if length q <? cp then start_pushes cp (q ++ [t]) d r else start_pushes cp q (S d) r
+  end.
+
+(* the state in which the repaired Start() returns, with the pushes of initTaskChan spelled out
+   (init_state true puts [rst] into the queue as it is; the two agree when [rst] fits, see
+   HandshakeQueueProofs.start_state_init) *)
+Definition start_state (c : cfg) (blocks : nat) (reqs rst : list task) (stop : bool) : state :=
+  {| hpc := Hsel; kpc := Ksel; spc := Sidle; apc := Aidle; qb := 0;
+     tasks := fst (start_pushes (cap c) [] 0 rst);
+     e_blocks := blocks; e_tasks := reqs; e_stop := stop; restart := []; panicked := false;
+     gh := g_drop (snd (start_pushes (cap c) [] 0 rst)) (g_acc (length rst) ghost0) |}.
+
+(* the repaired protocol with a queue of [n] slots *)
+Definition cfg_cap (n : nat) : cfg := {| f1fix := true; nilfix := true; qcap := 1024; cap := n |}.
+(* ... of exactly MaxWaitingTaskNum slots: no room for the worker's own re-queue while the API has filled the
+   waiting queue (the configuration C20_requeue_never_dropped excludes) *)
+Definition cfg_tight : cfg := cfg_cap busy_threshold.
+
 (* ---------------------------------------------------------------- predicates of the property *)
 
 Definition stop_requested (s : state) : Prop := spc s <> Sidle.
